@@ -144,7 +144,10 @@ type mJob struct {
 	NT         int64
 	Rest       int64
 }
-type mQueue struct{ Name, State, Parent int64 }
+type mQueue struct {
+	Name, State, Parent int64
+	Term                bool // metadata.deletionTimestamp set, a finalizer keeps the object
+}
 
 func p64(x int64) *int64 { return &x }
 
@@ -229,7 +232,7 @@ func encJob(out []int64, j mJob, tagged bool) []int64 {
 func encQueues(out []int64, qs []mQueue) []int64 {
 	out = append(out, int64(len(qs)))
 	for _, q := range qs {
-		out = append(out, q.Name, q.State, q.Parent)
+		out = append(out, q.Name, q.State, q.Parent, vh.B(q.Term))
 	}
 	return out
 }
@@ -319,7 +322,7 @@ func (r *rd) queues() []mQueue {
 	n := int(r.z())
 	qs := make([]mQueue, 0, n)
 	for i := 0; i < n; i++ {
-		qs = append(qs, mQueue{r.z(), r.z(), r.z()})
+		qs = append(qs, mQueue{r.z(), r.z(), r.z(), r.z() != 0})
 	}
 	return qs
 }
@@ -691,6 +694,12 @@ func setQueues(qs []mQueue, useInformer bool) {
 		obj := &sched.Queue{ObjectMeta: metav1.ObjectMeta{Name: queueNames.str(q.Name)},
 			Spec:   sched.QueueSpec{Parent: queueNames.str(q.Parent)},
 			Status: sched.QueueStatus{State: sched.QueueState(queueStates.str(q.State))}}
+		if q.Term {
+			// a deleted queue that a finalizer keeps alive: still served by lister and index
+			ts := metav1.NewTime(time.Unix(1700000000, 0))
+			obj.DeletionTimestamp = &ts
+			obj.Finalizers = []string{"verif.example/hold"}
+		}
 		if err := idx.Add(obj); err != nil {
 			panic(err)
 		}
@@ -986,7 +995,7 @@ func laws(sel int, in, got []int64, law func(lsel int, lin []int64, sig string))
 
 // ---------------------------------------------------------------- generators
 
-var baseQueues = []mQueue{{1, 1, 0}, {2, 1, 1}, {3, 1, 1}, {4, 2, 1}, {5, 1, 3}, {6, 3, 1}}
+var baseQueues = []mQueue{{1, 1, 0, false}, {2, 1, 1, false}, {3, 1, 1, false}, {4, 2, 1, false}, {5, 1, 3, false}, {6, 3, 1, false}}
 
 func genQueues(r *vh.Rng) []mQueue {
 	if r.Chance(3, 4) {
@@ -1004,9 +1013,52 @@ func genQueues(r *vh.Rng) []mQueue {
 		if id == 1 {
 			q.Parent = 0
 		}
+		q.Term = r.Chance(1, 4)
 		qs = append(qs, q)
 	}
 	return qs
+}
+
+// queueWorld builds a queue table around a target queue (q4) for one queue-related class; the
+// target's parent, its own terminating flag, the number / states / terminating flags of its
+// children and the order of the table are drawn independently
+func queueWorld(r *vh.Rng, kind string) ([]mQueue, int64) {
+	term := func() bool { return r.Chance(1, 2) }
+	anyState := func() int64 { return int64(vh.Pick(r, []int{1, 1, 2, 3, 4, 0})) }
+	qs := []mQueue{{1, 1, 0, false}, {2, 1, 1, r.Chance(1, 8)}}
+	const T = 4
+	tq := mQueue{Name: T, State: 1, Parent: vh.Pick(r, []int64{1, 3})}
+	if tq.Parent == 3 {
+		qs = append(qs, mQueue{3, anyState(), 1, term()})
+	}
+	switch kind {
+	case "queue-not-leaf":
+		// 1-2 children in any state; each may be terminating (all of them, too)
+		tq.Term = r.Chance(1, 4)
+		for i := 0; i < r.Range(1, 2); i++ {
+			qs = append(qs, mQueue{int64(5 + i), anyState(), T, term()})
+		}
+	case "queue-only-terminating-children":
+		for i := 0; i < r.Range(1, 2); i++ {
+			qs = append(qs, mQueue{int64(5 + i), anyState(), T, true})
+		}
+	case "queue-target-terminating":
+		tq.Term = true // Open, childless, being deleted: admitted by the unchanged code
+	case "queue-not-open":
+		tq.State = int64(vh.Pick(r, []int{2, 3, 4, 0}))
+		tq.Term = term()
+	case "queue-leaf-with-nephews":
+		// a sibling has children (terminating or not); the target itself is a leaf
+		qs = append(qs, mQueue{5, anyState(), tq.Parent, term()}, mQueue{6, anyState(), 5, term()})
+	default:
+		panic(kind)
+	}
+	qs = append(qs, tq)
+	for i := len(qs) - 1; i > 0; i-- {
+		k := r.Intn(i + 1)
+		qs[i], qs[k] = qs[k], qs[i]
+	}
+	return qs, T
 }
 
 func shuffle(r *vh.Rng, xs []int64) []int64 {
@@ -1211,7 +1263,8 @@ var defectNames = []string{"no-tasks", "dup-task-name", "task-minavail-gt-replic
 	"bad-template", "bad-task-name", "bad-job-name", "partition-total", "partition-size", "partition-replicas", "partition-minavail",
 	"partition-nt-conflict", "job-nt-conflict", "negative-replicas", "replica-overflow", "dotted-task-name", "exitcode-bad-action",
 	"explicit-default-name", "partition-overflow", "partition-negative-min", "mpi-unparsable-args", "mpi-unparsable-args-default-master",
-	"same-trigger-job-and-task", "same-trigger-two-tasks"}
+	"same-trigger-job-and-task", "same-trigger-two-tasks",
+	"queue-only-terminating-children", "queue-target-terminating", "queue-leaf-with-nephews"}
 
 func perm(r *vh.Rng, n int) []int {
 	out := make([]int, n)
@@ -1505,6 +1558,8 @@ func inject(r *vh.Rng, j *mJob, kind string) bool {
 		j.Queue = 1
 	case "queue-not-leaf":
 		j.Queue = 3
+	case "queue-only-terminating-children", "queue-target-terminating", "queue-leaf-with-nephews":
+		// the queue world is built by worldFor
 	case "deps-cycle":
 		if n < 2 {
 			return false
@@ -2057,7 +2112,17 @@ func gen(rng *vh.Rng, n int, emit func(id string, sel int, in []int64, kind stri
 			if !inject(rc, &j, d) {
 				continue
 			}
-			emit(fmt.Sprintf("create-%s-%d", d, i), 1, createTokens(qs, j, rc.Chance(1, 2)), "create/"+d, len(j.Tasks) > 0, descJob(j))
+			cqs := qs
+			switch d {
+			case "queue-not-leaf", "queue-not-open":
+				if rc.Chance(2, 3) {
+					cqs, j.Queue = queueWorld(rc, d)
+				}
+			case "queue-only-terminating-children", "queue-target-terminating", "queue-leaf-with-nephews":
+				cqs, j.Queue = queueWorld(rc, d)
+			}
+			// both lookup paths of GetQueuesByParent: the parent index of the informer, the lister fallback
+			emit(fmt.Sprintf("create-%s-%d", d, i), 1, createTokens(cqs, j, rc.Chance(1, 2)), "create/"+d, len(j.Tasks) > 0, descJob(j))
 		}
 	}
 	// 2. random: valid jobs against random queue tables, several defects at once
@@ -2106,6 +2171,11 @@ func gen(rng *vh.Rng, n int, emit func(id string, sel int, in []int64, kind stri
 			kind = "pipeline/minpartitions-above-total"
 		}
 		qs := genQueues(rp)
+		if rp.Chance(1, 5) {
+			qs, j.Queue = queueWorld(rp, vh.Pick(rp, []string{"queue-not-leaf", "queue-only-terminating-children",
+				"queue-target-terminating", "queue-not-open", "queue-leaf-with-nephews"}))
+			kind = "pipeline/queue-world"
+		}
 		emit(fmt.Sprintf("pipeline-%d", i), 4, pipelineTokens(qs, int64(rp.Range(1, 3)), j, rp.Chance(1, 2)), kind, len(j.Tasks) > 0, descJob(j))
 	}
 	// 5. update histories
